@@ -52,12 +52,12 @@ func TestVerifC19_histogram_ctor(t *testing.T) {
 	r := verifmc.Start(t, "C19", "histogram_ctor")
 	defer r.Finish()
 	var insts []prio.Inst
-	for _, l := range []uint{0, 1, 2, 5, 100} {
+	for _, l := range []uint{5, 1, 2, 0, 100} {
 		for _, c := range []uint{0, 1, 2, 5, 6, 101} {
 			insts = append(insts, c19H(l, c))
 		}
 	}
-	c19Sys().UnitCtor(r, insts, []int{0, 1, 2, 3, 255})
+	c19Sys().UnitCtor(r, insts, []int{2, 3, 255, 0, 1})
 }
 
 func TestVerifC19_histogram_agg(t *testing.T) {
@@ -70,8 +70,9 @@ func TestVerifC19_histogram_agg(t *testing.T) {
 			c19H(8, 3), c19H(100, 10),
 		},
 		FullShares:  []int{2, 3},
-		LightShares: []int{4, 9, 255},
+		LightShares: []int{4, 8, 9, 255},
 		MaxBatch:    3,
+		RTMaxBatch:  2,
 		Seeds:       r.Pick(2, 5),
 		DomainLimit: 8,
 	}
